@@ -66,6 +66,10 @@ func (pac *PACType) Unmarshal(b []byte) (err error) {
 	if err != nil {
 		return
 	}
+	// Each PAC_INFO_BUFFER entry of the table is 16 bytes. The table follows the 8 byte header.
+	if uint64(pac.CBuffers)*16 > uint64(len(b)) {
+		return errors.New("PAC buffer count is larger than the size of the PAC allows")
+	}
 	buf := make([]InfoBuffer, pac.CBuffers, pac.CBuffers)
 	for i := range buf {
 		buf[i].ULType, err = r.Uint32()
@@ -89,6 +93,9 @@ func (pac *PACType) Unmarshal(b []byte) (err error) {
 // https://msdn.microsoft.com/en-us/library/cc237954.aspx
 func (pac *PACType) ProcessPACInfoBuffers(key types.EncryptionKey, l *log.Logger) error {
 	for _, buf := range pac.Buffers {
+		if buf.Offset > uint64(len(pac.Data)) || uint64(buf.CBBufferSize) > uint64(len(pac.Data))-buf.Offset {
+			return errors.New("PAC info buffer offset and size are not within the PAC data")
+		}
 		p := make([]byte, buf.CBBufferSize, buf.CBBufferSize)
 		copy(p, pac.Data[int(buf.Offset):int(buf.Offset)+int(buf.CBBufferSize)])
 		switch buf.ULType {
